@@ -1637,6 +1637,19 @@ pub fn monitor_onchain_failed_outbound_htlcs<Signer: crate::sign::ecdsa::EcdsaCh
 	out
 }
 
+/// What the guard chain of `FundedChannel::revoke_and_ack` reads from the channel (C05, read-only): see
+/// `FundedChannel::verif_raa_guard_inputs`.
+pub fn channel_raa_guard_inputs<CM: crate::ln::channelmanager::AChannelManager>(
+	node: &CM, counterparty_node_id: &bitcoin::secp256k1::PublicKey,
+	channel_id: &crate::ln::types::ChannelId,
+) -> Option<String> {
+	let cm = node.get_cm();
+	let per_peer_state = cm.per_peer_state.read().unwrap();
+	let peer_state = per_peer_state.get(counterparty_node_id)?.lock().unwrap();
+	let chan = peer_state.channel_by_id.get(channel_id)?.as_funded()?;
+	Some(chan.verif_raa_guard_inputs())
+}
+
 /// The monitor-update gate of a funded channel as text (C09): see `FundedChannel::verif_monitor_gate_dump`.
 pub fn channel_monitor_gate_dump<CM: crate::ln::channelmanager::AChannelManager>(
 	node: &CM, counterparty_node_id: &bitcoin::secp256k1::PublicKey,
